@@ -291,7 +291,7 @@ pub(crate) fn access_with_symbol<Data: GarnishData>(
                 GarnishDataType::Concatenation => {
                     let mut found = None;
                     iterate_concatenation_mut(this, value, |this, index, addr| {
-                        if index > start && index <= end {
+                        if index >= start && index <= end {
                             // in range
                             // need the latest value, being the value closest to the end for symbol access
                             // check entire concatenation, reassigning found each time we find a match
